@@ -225,6 +225,7 @@ def case_ft(ctx, N):
     ctx.assume("exp uninterpreted (keyed by canonical argument); (f^2+f0^2)^(11/6) uninterpreted; r0 powers algebraic; pi is the double numpy.pi")
     names = dict(P)
     rp = lambda m: replay_cov_multi(N, m)
+    ctx.fallback = rp
     X1, Y1 = symarr("a", (N, N)), symarr("b", (N, N))
     X2, Y2 = symarr("c", (N, N)), symarr("d", (N, N))
     al, be = var("al"), var("be")
@@ -439,6 +440,7 @@ def case_custom_fft(ctx, N):
     ctx.bounds.update(N=N, FFT="a callable computing the normalised inverse 2-D DFT (numpy.fft.ifft2's contract)")
     X, Y = symarr("x", (N, N)), symarr("y", (N, N))
     rp = lambda m: replay_custom_fft(4 if N == 2 else N)
+    ctx.fallback = rp
     with npx.symbolic(ps):
         a = numpy.asarray(ps.ft_phase_screen(P["r0"], N, P["delta"], P["L0"], P["l0"], seed=Gen([X, Y])), dtype=object)
         b = numpy.asarray(ps.ft_phase_screen(P["r0"], N, P["delta"], P["L0"], P["l0"], FFT=npx.FFT.ifft2, seed=Gen([X, Y])), dtype=object)
